@@ -83,6 +83,34 @@ Definition pick {A} (d : A) (sel : list nat) (l : list A) : list A := map (fun i
 Definition recover_sel (sel : list nat) (xs ys : list T) : T :=
   recover (pick o.(o0) sel xs) (pick o.(o0) sel ys).
 
+(* ---- model/group_sign.go GroupSignGenerator (in the exponent) ----
+   [g_map] = witnessSignMap in arrival order (the Go map has no order; the order in which
+   recoverSignature sees the entries is the parameter [sel] below), [g_sig] = groupSign once
+   recovered.  [ideq] compares member ids (map keys: id.GetHexString()). *)
+Variable ideq : T -> T -> bool.
+
+Record gen := Gen { g_thr : nat; g_map : list (T * T); g_sig : option T }.
+
+Definition gen_new (thr : nat) : gen := Gen thr [] None.
+
+Fixpoint has_id (id : T) (m : list (T * T)) : bool :=
+  match m with [] => false | (i, _) :: m' => ideq i id || has_id id m' end.
+
+(* AddWitnessSign: refused once recovered (SignRecovered); duplicates refused (addWitnessForce);
+   when the map reaches the threshold, genGroupSign -> RecoverGroupSignature over the entries at
+   positions [sel].  Result: (state, add, generated). *)
+Definition gen_add (sel : list nat) (g : gen) (id s : T) : gen * bool * bool :=
+  match g.(g_sig) with
+  | Some _ => (g, false, true)
+  | None =>
+      if has_id id g.(g_map) then (g, false, false)
+      else
+        let m := g.(g_map) ++ [(id, s)] in
+        if Nat.leb g.(g_thr) (length m) then
+          (Gen g.(g_thr) m (Some (recover_sel sel (map fst m) (map snd m))), true, true)
+        else (Gen g.(g_thr) m None, true, false)
+  end.
+
 End Generic.
 
 (* ---- instance: integers modulo q (q = bn256.Order in the node) ---- *)
@@ -133,25 +161,5 @@ Definition group_member_min_dev : Z := 3.   (* param.go: GroupMemberMin in dev; 
 Definition group_member_max : Z := 10.      (* GROUP_MAX_MEMBERS; configurable upper bound below *)
 Definition group_member_max_cfg : Z := 1000.
 
-(* ---- model/group_sign.go GroupSignGenerator (in the exponent) ---- *)
-Record gen := Gen { g_thr : nat; g_map : list (Z * Z); g_sig : option Z }.
-
-Definition gen_new (thr : nat) : gen := Gen thr [] None.
-
-Fixpoint has_id (id : Z) (m : list (Z * Z)) : bool :=
-  match m with [] => false | (i, _) :: m' => (i =? id)%Z || has_id id m' end.
-
-(* AddWitnessSign: refused once recovered; duplicates refused; at the threshold recover from the
-   positions [sel] (the implementation's random choice).  Returns (state, added, generated). *)
-Definition gen_add (q : Z) (sel : list nat) (g : gen) (id s : Z) : gen * bool * bool :=
-  match g.(g_sig) with
-  | Some _ => (g, false, true)
-  | None =>
-      if has_id id g.(g_map) then (g, false, false)
-      else
-        let m := g.(g_map) ++ [(id, s)] in
-        if Nat.leb g.(g_thr) (length m) then
-          let r := recover_z q (pick 0%Z sel (map fst m)) (pick 0%Z sel (map snd m)) in
-          (Gen g.(g_thr) m (Some r), true, true)
-        else (Gen g.(g_thr) m None, true, false)
-  end.
+(* the order used by the executable model: all entries, in arrival order *)
+Definition all_positions (thr : nat) : list nat := seq 0 thr.
